@@ -17,5 +17,7 @@ def w(n):
     r=K.run_cbmc(o,m[n],f"/verif/.work/run/probe/{n.replace('::','__')}" + (f"-fs{a.fs}" if a.fs else ""))
     fl=[f["label"] for f in r["failed"]][:8]
     cov={k:v for k,v in r["covers"].items()}
+    if not a.keep:
+        import shutil; shutil.rmtree(f"/verif/.work/run/probe/{n.replace('::','__')}" + (f"-fs{a.fs}" if a.fs else ""), ignore_errors=True)
     print(n,r["status"],r.get("wall_s"),{k:r["stats"].get(k) for k in ("symex_s","solver_s","sat_vars","vccs_remaining")},r.get("detail","")[:300],fl,"covers_unsat=",[k for k,v in cov.items() if not v],flush=True)
 with ThreadPoolExecutor(a.jobs) as ex: list(ex.map(w,a.names))
